@@ -8,6 +8,7 @@ import PyTrie.Model.IterRaw
 import PyTrie.Model.Walk
 import PyTrie.Model.HexRawT
 import PyTrie.Model.HexFree
+import PyTrie.Model.WalkD
 /-! Line-protocol front end for the hexary-trie model (commands `hx.*`). One reply line per
     command. Byte strings are lower-case hex (`-` = empty), nibble paths one hex digit per nibble
     (`-` = empty), the batch trie is addressed as `b`, other tries by number. -/
@@ -24,6 +25,7 @@ structure St where
   walk : CState := ⟨Fog.init, [], []⟩   -- state of the concrete fog walk (`Model/Walk.lean`)
   rr : Hash × HexD.Db := (blankRoot keccak, [])   -- root and database of the raw-level run (`HexRaw.rawOp` threaded)
   fw : HexFree.FWorld := HexFree.FWorld.init keccak false   -- the tree-free executor and its `squash_changes` (`Model/HexFree.lean`)
+  walkD : HexD.CStateD := ⟨Fog.init, [], []⟩   -- the raw-level fog walk (`Model/WalkD.lean`): cache of raw node bodies, reads the db
   deriving Inhabited
 
 def pathStr (p : Path) : String :=
@@ -196,6 +198,33 @@ def step (st : St) (cmd : String) (args : List String) : St × String :=
     | some n => ({ st with regs := st.regs.push n }, toString st.regs.size)
     | none => bad
   -- the concrete fog walk of `Model/Walk.lean`, one whole step at a time
+  -- the raw-level fog walk of `Model/WalkD.lean`: root hash + database as they are now, cache of raw node bodies
+  | "wdnew", [] => ({ st with walkD := ⟨Fog.init, [], []⟩ }, "ok")
+  | "wdcnew", [] => ({ st with walkD := { st.walkD with cache := [] } }, "ok")
+  | "wdrefog", [] => ({ st with walkD := { st.walkD with fog := Fog.init, met := [] } }, "ok")
+  | "wdcdel", [p] =>
+    match parsePath p with
+    | some p => ({ st with walkD := { st.walkD with cache := Fog.Frontier.delete st.walkD.cache p } }, "ok")
+    | none => bad
+  | "wdstep", [tg, p, useCache] =>
+    match parseTarget tg, parsePath p with
+    | some tg, some p =>
+      let T := w.trieOf tg
+      let cs : HexD.CStateD := if useCache == "1" then st.walkD else { st.walkD with cache := [] }
+      match HexD.cstepD keccak w.base T.root cs p with
+      | .error (.missing h used) => (st, s!"exn MissingTraversalNode {toHex h} {pathStr used}")
+      | .error _ => (st, "exn Invalid")
+      | .ok none => (st, "none")
+      | .ok (some cs') =>
+        let cs'' : HexD.CStateD := if useCache == "1" then cs' else { cs' with cache := st.walkD.cache }
+        let showF (f : Fog.Fog) := if f.isEmpty then "-" else ",".intercalate (f.map fun q => if q.isEmpty then "_" else pathStr q)
+        let newMet := if cs'.met.length > cs.met.length then
+            match cs'.met.head? with
+            | some (k, v) => s!"{pathStr k}={toHex v}"
+            | none => "-"
+          else "-"
+        ({ st with walkD := cs'' }, s!"fog {showF cs'.fog} met {newMet}")
+    | _, _ => bad
   | "wnew", [] => ({ st with walk := ⟨Fog.init, [], []⟩ }, "ok")
   | "wcnew", [] => ({ st with walk := { st.walk with cache := [] } }, "ok")
   -- a new walk (fresh fog, nothing met yet) that keeps the frontier cache of the previous one
